@@ -89,6 +89,10 @@ def gen_directive(rng, allow_long_spec):
     elif conv == "p":
         args.append(rng.choice(["(void *)0", "(void *)0x1234", "(void *)0x7fffdeadbeefULL", "(void *)1"]))
     else:
+        # %lf, %le, ... are legal C (the l has no effect on a double); the decoder has to treat them like %f
+        if rng.random() < 0.3:
+            mod = "l"
+            feats.add("l-on-double")
         args.append("(double)(%s)" % rng.choice(DOUBLES + [repr(rng.uniform(-1e6, 1e6))]))
     spec = "%" + flags + width + prec + mod + conv
     return spec, args, feats
